@@ -125,6 +125,12 @@ class FixedDateTime(dt.datetime):
         tz_hours = int(tz.utcoffset(None).total_seconds() // 3600)
         return cls.NOW - dt.timedelta(hours=cls.UTC_OFFSET_H) + dt.timedelta(hours=tz_hours)
 
+    @classmethod
+    def strptime(cls, s, fmt):
+        # modules whose `dt` is the clock shim reach strptime through this class, not through the
+        # patched datetime.datetime.strptime: route to the same model
+        return strptime_model(s, fmt)
+
 
 class _DtShim:
     """Stands in for the `dt` (datetime) module object inside one zorg module."""
